@@ -117,6 +117,11 @@ func findQueueHelpers(c *core.Ctx, mqType types.Type) *queueHelpers {
 		}
 		res := fn.Signature.Results()
 		set := func(slot **ssa.Function) {
+			// several functions of one shape (a helper split into phases: enq = link(alloc(x)), deq = unlink + release):
+			// the role is played by the one that calls the others
+			if *slot != nil && reachesStatically(*slot, fn, 3) {
+				return
+			}
 			*slot = fn
 			q.qi[fn], q.xi[fn] = qIdx, xIdx
 		}
@@ -160,6 +165,32 @@ func findQueueHelpers(c *core.Ctx, mqType types.Type) *queueHelpers {
 		}
 	}
 	return q
+}
+
+// reachesStatically: from calls to (directly or through at most depth further static calls).
+func reachesStatically(from, to *ssa.Function, depth int) bool {
+	if from == nil || depth < 0 {
+		return false
+	}
+	for _, b := range from.Blocks {
+		for _, in := range b.Instrs {
+			ci, ok := in.(ssa.CallInstruction)
+			if !ok {
+				continue
+			}
+			callee := ci.Common().StaticCallee()
+			if callee == nil {
+				continue
+			}
+			if o := callee.Origin(); o != nil {
+				callee = o
+			}
+			if callee == to || reachesStatically(callee, to, depth-1) {
+				return true
+			}
+		}
+	}
+	return false
 }
 
 // headFromBranches: the node field that a nil test of path p speaks about becomes the head role.
